@@ -132,7 +132,8 @@ def step (d : Db) : List String → Db × String
     | some k => change d (d.dml (.delete t k))
     | none => bad d
   | "create" :: t :: cols =>
-    match cols.mapM parseCol with
+    -- `pk@N` (declared position of the key column) is presentation only: the model abstracts it away
+    match (cols.filter (fun c => !c.startsWith "pk@")).mapM parseCol with
     | some cs => change d (d.dml (.createTable t cs))
     | none => bad d
   | ["droptable", t] => change d (d.dml (.dropTable t))
